@@ -287,3 +287,15 @@ def _reduce(ip, a, kw, node):
 
 
 R.EXTERNALS["functools.reduce"] = R.ExtFn(_reduce)
+
+
+# str.__str__(k): the plain-str copy of a str (subclass) instance - runs no user code (type slot of str itself); ==-equal to k, so the logic identifies them
+def _plain_str(ip, a, kw, node):
+    k_ = a[0]
+    if isinstance(k_, ZV):
+        ip.partial(is_strval(k_.term), "TypeError", node, "str.__str__")
+        return ZV(k_.term, "str")
+    return k_
+
+
+R.EXTERNALS["builtins.str.__str__"] = R.ExtFn(_plain_str)
